@@ -9,6 +9,7 @@
 
 use rosu_pp::{
     mania::{Mania, ManiaGradualDifficulty},
+    taiko::{Taiko, TaikoGradualDifficulty},
     model::{hit_object::HitObjectKind, mode::GameMode},
     Beatmap, Difficulty,
 };
@@ -163,6 +164,180 @@ fn check(run: &mut Run, id: &str, bytes: &[u8], mods: u32, rate: Option<f64>, ta
     run.line(id, req, resp);
 }
 
+/// One native-taiko case: `PIPE taiko` line.
+fn check_taiko(run: &mut Run, id: &str, bytes: &[u8], mods: u32, rate: Option<f64>, take: Option<u32>) {
+    let hexb: String = if bytes.is_empty() { "-".to_owned() } else { bytes.iter().map(|b| format!("{b:02x}")).collect() };
+    let repro = format!("taiko mods={mods} rate={rate:?} take={take:?} bytes=<<{}>>", String::from_utf8_lossy(bytes));
+    run.repro.insert(id.to_owned(), repro.clone());
+    let head = format!(
+        "PIPE taiko {hexb} {mods} {} {}",
+        rate.map_or("-".to_owned(), |r| hex(r.to_bits())),
+        take.map_or("-".to_owned(), |t| t.to_string())
+    );
+    let sum0 = hex(crate::svops::sum_identity().to_bits());
+    let map = match guarded(|| Beatmap::from_bytes(bytes)) {
+        Ok(Ok(m)) => m,
+        Ok(Err(_)) => {
+            run.count("tpipe:stage:io-error");
+            run.line(id, format!("{head} {sum0} {}", hex(0)), "IOERR".to_owned());
+            return;
+        }
+        Err(e) => {
+            run.fail("oracle:pipe-decode-panic", "", id, e, repro);
+            return;
+        }
+    };
+    run.count("tpipe:stage:decoded");
+    if map.mode != GameMode::Taiko {
+        run.count("tpipe:stage:not-taiko");
+        run.line(id, format!("{head} {sum0} {}", hex(0)), format!("NOTTAIKO {}", map.mode as u8));
+        return;
+    }
+    let d = build(mods, rate, take);
+    let attrs = match guarded(|| d.calculate_for_mode::<Taiko>(&map)) {
+        Ok(Ok(a)) => a,
+        other => {
+            run.fail("oracle:pipe-calculate-failed", "", id, format!("{other:?}"), repro);
+            return;
+        }
+    };
+    run.count("tpipe:stage:stars");
+    let n = map.hit_objects.len();
+    run.count(match n {
+        0..=2 => "tpipe:objects:0-2",
+        3..=10 => "tpipe:objects:3-10",
+        11..=100 => "tpipe:objects:11-100",
+        _ => "tpipe:objects:100+",
+    });
+    if map.hit_objects.iter().any(|h| !h.is_circle()) {
+        run.count("tpipe:has-drumroll-or-swell");
+    }
+    if map.effect_points.len() > 1 || map.timing_points.len() > 1 {
+        run.count("tpipe:several-control-points");
+    }
+    for (what, v) in [("stars", attrs.stars), ("stamina", attrs.stamina), ("rhythm", attrs.rhythm), ("color", attrs.color), ("reading", attrs.reading), ("mono_stamina_factor", attrs.mono_stamina_factor)] {
+        if !v.is_finite() || v < 0.0 {
+            run.fail("oracle:pipe-taiko-attr-not-finite-nonnegative", "", id, format!("{what} = {v}"), repro.clone());
+        }
+    }
+    let hits = map.hit_objects.iter().filter(|h| h.is_circle()).count();
+    let want_combo = hits.min(take.map_or(usize::MAX, |t| t as usize));
+    if attrs.max_combo as usize != want_combo {
+        run.fail("oracle:pipe-taiko-max-combo", "", id, format!("max_combo {} for {hits} hits, take {take:?}", attrs.max_combo), repro.clone());
+    }
+    // gradual values: only in the class the C02 theorem covers (>= 3 objects, the first two are
+    // hits, the last is a hit) — the other classes are the recorded taiko gradual findings
+    let regular = take.is_none()
+        && n >= 3
+        && map.hit_objects[0].is_circle()
+        && map.hit_objects[1].is_circle()
+        && map.hit_objects[n - 1].is_circle();
+    let mut gtail = String::new();
+    let mut gflag = "";
+    if regular {
+        if let Ok(Ok(vals)) = guarded(|| TaikoGradualDifficulty::new(build(mods, rate, None), &map).map(|g| g.collect::<Vec<_>>())) {
+            run.count("tpipe:stage:gradual");
+            let steps: Vec<String> = vals.iter().map(|a| format!("{}:{}", show_z(a.stars), a.max_combo)).collect();
+            gtail = format!(" G{}", crate::common::show_long(&steps));
+            gflag = " G";
+            if let Some(last) = vals.last() {
+                if *last != attrs {
+                    run.fail("oracle:pipe-taiko-gradual-last-vs-full", "", id, format!("{last:?} vs {attrs:?}"), repro.clone());
+                }
+            }
+        }
+    }
+    run.line(
+        id,
+        format!("{head} {sum0} {}{gflag}", hex(attrs.great_hit_window.to_bits())),
+        format!(
+            "R{} D{} C{} T{} M{} S{} X{} V{}{gtail}",
+            show_z(attrs.rhythm),
+            show_z(attrs.reading),
+            show_z(attrs.color),
+            show_z(attrs.stamina),
+            show_z(attrs.mono_stamina_factor),
+            show_z(attrs.stars),
+            attrs.max_combo,
+            u8::from(attrs.is_convert)
+        ),
+    );
+}
+
+/// A native taiko file as text: dons / kats / finishers, drum rolls (slider lines), swells (spinner
+/// lines), uninherited and inherited timing points (scroll speed), header / EOL variants, junk lines.
+fn taiko_file(rng: &mut Rng, n: usize) -> Vec<u8> {
+    let version = *rng.pick(&[14, 14, 14, 128, 10, 7, 5]);
+    let eol = if rng.chance(1, 4) { "\r\n" } else { "\n" };
+    let mut s = String::new();
+    if rng.chance(1, 12) {
+        s.push('\u{feff}');
+    }
+    if !rng.chance(1, 15) {
+        s.push_str(&format!("osu file format v{version}{eol}{eol}"));
+    }
+    s.push_str(&format!("[General]{eol}Mode: 1{eol}{eol}"));
+    s.push_str(&format!(
+        "[Difficulty]{eol}HPDrainRate:5{eol}CircleSize:5{eol}OverallDifficulty:{}{eol}ApproachRate:5{eol}SliderMultiplier:{}{eol}SliderTickRate:1{eol}{eol}",
+        *rng.pick(&["0", "3", "5", "6.5", "8", "10"]),
+        *rng.pick(&["1.4", "1", "2", "3.6", "0.4", "1.47"])
+    ));
+    let beat = *rng.pick(&[250.0, 300.0, 333.33, 400.0, 500.0, 600.0]);
+    s.push_str(&format!("[TimingPoints]{eol}{},{beat},4,1,0,100,1,0{eol}", *rng.pick(&[0, 0, 0, -500, 1200])));
+    for k in 0..rng.below(4) {
+        let t = 800 + 1700 * k as i64 + rng.range(0, 600);
+        if rng.chance(1, 3) {
+            s.push_str(&format!("{t},{},4,1,0,100,1,{}{eol}", *rng.pick(&[200.0, 375.0, 750.0, 461.5]), rng.below(2)));
+        } else {
+            s.push_str(&format!("{t},{},4,1,0,100,0,{}{eol}", *rng.pick(&[-25.0, -50.0, -66.67, -100.0, -133.33, -200.0, -400.0]), rng.below(2)));
+        }
+    }
+    s.push_str(&format!("{eol}[HitObjects]{eol}"));
+    let mut t = rng.range(-300, 1500) as f64;
+    let mut rim = rng.chance(1, 2);
+    let mut run_left = 0;
+    let mut div = *rng.pick(&[1.0, 2.0, 4.0, 8.0]);
+    let mut lines: Vec<String> = Vec::new();
+    for _ in 0..n {
+        if run_left == 0 {
+            rim = !rim;
+            run_left = *rng.pick(&[1, 1, 2, 2, 3, 4, 7, 12]);
+            if rng.chance(1, 3) {
+                div = *rng.pick(&[1.0, 2.0, 3.0, 4.0, 6.0, 8.0]);
+            }
+        }
+        run_left -= 1;
+        let sound = if rim { *rng.pick(&[2, 8, 10, 12]) } else { *rng.pick(&[0, 4, 1]) };
+        let r = rng.below(24);
+        lines.push(if r < 21 {
+            format!("256,192,{t},1,{sound},0:0:0:0:")
+        } else if r < 23 {
+            format!("256,192,{t},2,{sound},L|{}:192,{},{}", rng.range(260, 500), rng.range(1, 3), *rng.pick(&[70, 140, 280]))
+        } else {
+            format!("256,192,{t},12,0,{}", t + *rng.pick(&[50.0, 400.0, 2000.0]))
+        });
+        if rng.chance(1, 16) {
+            lines.push((*rng.pick(&["", "// c", "junk", "256,192,x,1,0", "256,192,100,64,0"])).to_owned());
+        }
+        t += match rng.below(40) {
+            0 => 0.0,
+            1 => *rng.pick(&[1.0, 2.0, 5.0]),
+            2 => *rng.pick(&[3000.0, 20000.0]),
+            _ => beat / div,
+        };
+    }
+    if rng.chance(1, 6) && lines.len() > 2 {
+        let i = rng.below(lines.len() as u64) as usize;
+        let j = rng.below(lines.len() as u64) as usize;
+        lines.swap(i, j);
+    }
+    for l in lines {
+        s.push_str(&l);
+        s.push_str(eol);
+    }
+    s.into_bytes()
+}
+
 /// A native mania file as text: header / line-ending / BOM variants, section order, malformed lines.
 fn mania_file(rng: &mut Rng, n: usize) -> Vec<u8> {
     let version = *rng.pick(&[14, 14, 14, 128, 12, 9, 7, 5, 3]);
@@ -270,6 +445,48 @@ pub fn run(run: &mut Run, tier: &str, seed: u64, only: Option<&str>) {
         for k in if thorough { vec![10usize, 80, 400, usize::MAX] } else { vec![30usize, 250] } {
             let t = if k == usize::MAX { text.clone() } else { crate::common::truncate_objects(&text, k) };
             cases.push((format!("pipe-res-first{k}"), t.into_bytes()));
+        }
+    }
+    // --- native taiko
+    let mut tcases: Vec<(String, Vec<u8>)> = Vec::new();
+    for (i, b) in [&b""[..], b"ab", b"[General]\nMode: 1\n", b"[General]\nMode:1\n[HitObjects]\n256,192,0,1,0\n256,192,200,1,8\n256,192,400,1,0\n256,192,600,1,2\n"].iter().enumerate() {
+        tcases.push((format!("tpipe-tiny-{i}"), b.to_vec()));
+    }
+    let n_tgen = if thorough { 2500 } else { 220 };
+    for i in 0..n_tgen {
+        let n = *rng.pick(&[0usize, 1, 2, 3, 4, 6, 12, 30, 70]);
+        tcases.push((format!("tpipe-gen-{i}"), taiko_file(&mut rng, n)));
+    }
+    for (mode, text) in resource_maps() {
+        if mode != 1 {
+            continue;
+        }
+        for k in if thorough { vec![10usize, 80, 400, usize::MAX] } else { vec![40usize, 300] } {
+            let t = if k == usize::MAX { text.clone() } else { crate::common::truncate_objects(&text, k) };
+            tcases.push((format!("tpipe-res-first{k}"), t.into_bytes()));
+        }
+    }
+    for (id, bytes) in tcases {
+        if only.is_some_and(|o| o != id && !o.starts_with(&format!("{id}#"))) {
+            continue;
+        }
+        run.eval(Some(&format!("tpipe|{}", hex(crate::common::hash64(&String::from_utf8_lossy(&bytes))))));
+        let n_lines = bytes.iter().filter(|b| **b == b'\n').count() as u32;
+        let (mods, rate): (u32, Option<f64>) = match rng.below(6) {
+            0 | 1 => (0, None),
+            2 => (*rng.pick(&[16u32, 2, 64, 256, 16 + 64, 2 + 256, 128, 8]), None),
+            3 => (0, Some(*rng.pick(&[0.5, 0.75, 1.25, 1.5, 2.0, 1.1]))),
+            4 => (*rng.pick(&[16u32, 2]), Some(*rng.pick(&[0.9, 1.33]))),
+            _ => (64, None),
+        };
+        check_taiko(run, &format!("{id}#s"), &bytes, mods, rate, None);
+        let mut takes: Vec<u32> = vec![0, 1, 2, 3, n_lines / 3, n_lines.saturating_sub(9), n_lines + 2];
+        takes.dedup();
+        if bytes.len() > 20000 {
+            takes.truncate(3);
+        }
+        for t in takes {
+            check_taiko(run, &format!("{id}#s#p{t}"), &bytes, mods, rate, Some(t));
         }
     }
     for (id, bytes) in cases {
